@@ -329,10 +329,28 @@ class Gen:
         """A source whose data is produced by the write of a stored node
         (the source depends on that node)."""
         cands = [n for n in self.nodes if n["kind"] == "call" and n.get("store")
-                 and not self.stores[n["store"]].get("feeds")]
+                 and not self.stores[n["store"]].get("feeds") and not self.stores[n["store"]].get("shared")]
         if not cands:
             return None
         y = self.rng.choice(cands)
+        if self.coin(self.p.get("p_fed_same", 0.0)):
+            # `registry.source(plan, registry[y])`: the very same store object behind a second registry entry,
+            # optionally with a post-processing step between the write and the source
+            deps = [y["id"]]
+            if self.coin(0.5):
+                fix = self.add_call()
+                fix["args"], fix["kwargs"], fix["deps"], fix["ret"] = [], [], [y["id"]], "val"
+                self.writers.add(fix["id"])          # (nobody else depends on it)
+                if fix["id"] in self.usable:
+                    self.usable.remove(fix["id"])
+                deps.append(fix["id"])
+            i = self.new_id()
+            z = dict(id=i, kind="src", store=y["store"], deps=sorted(deps), scope=self.scope(),
+                     depth=self.rng.randrange(0, self.p["depth_max"] + 1))
+            self.nodes.append(z)
+            self.usable.append(i)
+            self.stores[y["store"]]["shared"] = True    # (no further entry on this store)
+            return z
         z = self.add_src(deps=[y["id"]])
         self.stores[y["store"]]["feeds"] = z["store"]
         # alias: one store registered twice (`registry.source(plan, registry[y])`): both entries report one modified time
